@@ -198,3 +198,13 @@ Proof.
     + unfold caches_ok. cbn [ps_fxn ps_fln ps_fxv ps_fxi ps_fli with_fxv]. rewrite N1, N2, fixed_values_mask.
       repeat split; auto.
 Qed.
+
+(* no dangling location in a reachable world: the abstraction drops nothing *)
+Theorem reachable_no_dangling src ops s :
+  let w := run (init src) ops in
+  In s (all_sets w) -> length (abs_set (w_store w) s) = length (ps_params s).
+Proof.
+  intros w Hin. destruct (reachable_ok src ops) as (HF & _). rewrite Forall_forall in HF.
+  destruct (HF s Hin) as (ps & HC). subst w. rewrite (abs_set_Consistent _ _ _ HC).
+  destruct HC as (HM & _). eapply mapM_Ok_length; eauto.
+Qed.
